@@ -341,14 +341,14 @@ theorem drove_selTail {s : GoSched} (ctx : Ctx) (h : Regs s .s_select none false
     drove_fin
 
 /-- what the fetcher leaves behind: the automaton has finished, with `dispatchErr` iff the fetcher failed -/
-def FetchPost (t : Gk.Task) (r : GoSched × Def.Task × GoError) : Prop :=
-  r.1.w.stuck = false ∧ r.1.w.pc = .idle ∧ r.1.w.lastTask = none ∧ r.1.w.getNextErr = false ∧
-    r.1.lastTask = none ∧ r.1.getNextErr.isSome = false ∧
+def FetchPost (t : Gk.Task) (lt : Option Gk.Task) (g : Bool) (r : GoSched × Def.Task × GoError) : Prop :=
+  r.1.w.stuck = false ∧ r.1.w.pc = .idle ∧ r.1.w.lastTask = lt ∧ r.1.w.getNextErr = g ∧
+    r.1.lastTask = lt.map toGenT ∧ r.1.getNextErr.isSome = g ∧
     ((∃ e, r.2.2 = some (goErrS e) ∧ r.1.w.ret = .dispatchErr t e) ∨
       (r.2.2 = none ∧ r.1.w.ret = .dispatched t.id))
 
-theorem get_post {s : GoSched} {t : Gk.Task} (ctx : Ctx) (id' : String) (h : Regs s (.d_get t) none false) :
-    FetchPost t (GoSched.repoGetById s ctx id') := by
+theorem get_post {s : GoSched} {t : Gk.Task} {lt g} (ctx : Ctx) (id' : String) (h : Regs s (.d_get t) lt g) :
+    FetchPost t lt g (GoSched.repoGetById s ctx id') := by
   obtain ⟨hpc, hns, hfix, hlt, hg⟩ := h.envw
   obtain ⟨henv, -, -, -, -, -, hglt, hggne⟩ := h
   obtain ⟨w1, hw⟩ : ∃ w1, s.orc.env s.k s.w = w1 := ⟨_, rfl⟩
@@ -356,7 +356,7 @@ theorem get_post {s : GoSched} {t : Gk.Task} (ctx : Ctx) (id' : String) (h : Reg
   have hs : ∃ w' : World,
       ((∃ e, w1.sched (.getById s.orc.fGet) = (w'.finish (.dispatchErr t e), .err (some e))) ∨
        (∃ cur, w1.sched (.getById s.orc.fGet) = (w'.finish (.dispatched t.id), .task cur))) ∧
-      w'.stuck = false ∧ w'.lastTask = none ∧ w'.getNextErr = false := by
+      w'.stuck = false ∧ w'.lastTask = lt ∧ w'.getNextErr = g := by
     simp only [World.sched, hpc]
     split
     · exact ⟨_, .inl ⟨_, rfl⟩, hns, hlt, hg⟩
@@ -371,8 +371,16 @@ theorem get_post {s : GoSched} {t : Gk.Task} (ctx : Ctx) (id' : String) (h : Reg
   · simp only [GoSched.repoGetById, GoSched.act, hw, hs]
     exact ⟨hns', rfl, hlt', hg', hglt, hggne, .inr ⟨rfl, rfl⟩⟩
 
-theorem fetch_post {s : GoSched} {t : Gk.Task} (ctx : Ctx) (h : Regs s (.d_mark t false) none false) :
-    FetchPost t (fetcher (toGenT t) false ctx s) := by
+theorem fetch_post_retry {s : GoSched} {t : Gk.Task} {lt g} (ctx : Ctx) (next_ : Def.Task)
+    (h : Regs s (.d_get t) lt g) : FetchPost t lt g (fetcher next_ true ctx s) := by
+  have hp := get_post ctx next_.Id h
+  simp only [fetcher]
+  generalize GoSched.repoGetById s ctx next_.Id = r at hp ⊢
+  rcases r with ⟨s3, task, err⟩
+  cases err <;> simpa [FetchPost, Go.isNil, Go.IsNil.isNil, Go.nil, default_goError] using hp
+
+theorem fetch_post {s : GoSched} {t : Gk.Task} {lt g} (ctx : Ctx) (next_ : Def.Task)
+    (h : Regs s (.d_mark t false) lt g) : FetchPost t lt g (fetcher next_ false ctx s) := by
   obtain ⟨hpc, hns, hfix, hlt, hg⟩ := h.envw
   obtain ⟨henv, -, -, -, -, -, hglt, hggne⟩ := h
   obtain ⟨w1, hw⟩ : ∃ w1, s.orc.env s.k s.w = w1 := ⟨_, rfl⟩
@@ -380,7 +388,7 @@ theorem fetch_post {s : GoSched} {t : Gk.Task} (ctx : Ctx) (h : Regs s (.d_mark 
   have hs : ∃ w' : World,
       ((∃ e, w1.sched (.markDispatched s.orc.fMark s.orc.hfMark) = (w'.finish (.dispatchErr t e), .err (some e))) ∨
        (w1.sched (.markDispatched s.orc.fMark s.orc.hfMark) = (w', .err none) ∧ w'.pc = .d_get t)) ∧
-      w'.stuck = false ∧ w'.fix = {} ∧ w'.lastTask = none ∧ w'.getNextErr = false := by
+      w'.stuck = false ∧ w'.fix = {} ∧ w'.lastTask = lt ∧ w'.getNextErr = g := by
     simp only [World.sched, hpc]
     split
     · exact ⟨_, .inl ⟨_, rfl⟩, hns, hfix, hlt, hg⟩
@@ -393,39 +401,68 @@ theorem fetch_post {s : GoSched} {t : Gk.Task} (ctx : Ctx) (h : Regs s (.d_mark 
   · simp only [fetcher, GoSched.repoMarkAsDispatched, GoSched.act, hw, hs]
     exact ⟨hns', rfl, hlt', hg', hglt, hggne, .inl ⟨e, rfl, rfl⟩⟩
   · simp only [fetcher, GoSched.repoMarkAsDispatched, GoSched.act, hw, hs]
-    have hp : FetchPost t (GoSched.repoGetById ⟨w', s.lastTask, s.getNextErr, s.orc, s.k + 1, s.reserved⟩ ctx
-        (toGenT t).Id) := get_post ctx _ ⟨henv, hpc', hns', hfix', hlt', hg', hglt, hggne⟩
-    generalize GoSched.repoGetById _ ctx (toGenT t).Id = r at hp ⊢
+    have hp : FetchPost t lt g (GoSched.repoGetById ⟨w', s.lastTask, s.getNextErr, s.orc, s.k + 1, s.reserved⟩ ctx
+        next_.Id) := get_post ctx _ ⟨henv, hpc', hns', hfix', hlt', hg', hglt, hggne⟩
+    generalize GoSched.repoGetById _ ctx next_.Id = r at hp ⊢
     rcases r with ⟨s3, task, err⟩
     cases err <;> simpa [FetchPost, GoSched.errOfResp, Go.isNil, Go.IsNil.isNil, Go.nil] using hp
 
-theorem drove_dispatch {s : GoSched} {t : Gk.Task} (ctx : Ctx) (h : Regs s (.d_wait t false) none false) :
-    Drove (Scheduler.dispatchTask s ctx (toGenT t) false) := by
+/-- what `dispatchTask` leaves behind: the automaton finished with `dispatchErr t e` / `dispatched t.id`, Go returns
+`StateDispatchErr next_ e` / `StateDispatched next_.Id` -/
+def DispPost (t : Gk.Task) (next_ : Def.Task) (lt : Option Gk.Task) (g : Bool) (r : GoSched × GoStepState) : Prop :=
+  r.1.w.stuck = false ∧ r.1.w.pc = .idle ∧ r.1.w.lastTask = lt ∧ r.1.w.getNextErr = g ∧
+    r.1.lastTask = lt.map toGenT ∧ r.1.getNextErr.isSome = g ∧
+    ((∃ e, r.2 = .dispatchErr next_ (some (goErrS e)) ∧ r.1.w.ret = .dispatchErr t e) ∨
+      (r.2 = .dispatched next_.Id ∧ r.1.w.ret = .dispatched t.id))
+
+theorem dispatch_post {s : GoSched} {t : Gk.Task} {retry : Bool} {lt g} (ctx : Ctx) (next_ : Def.Task)
+    (h : Regs s (.d_wait t retry) lt g) : DispPost t next_ lt g (Scheduler.dispatchTask s ctx next_ retry) := by
   obtain ⟨hpc, hns, hfix, hlt, hg⟩ := h.envw
   obtain ⟨henv, -, -, -, -, -, hglt, hggne⟩ := h
   obtain ⟨w1, hw⟩ : ∃ w1, s.orc.env s.k s.w = w1 := ⟨_, rfl⟩
   simp only [hw] at hpc hns hfix hlt hg
   rw [dispatchTask_eq]
   by_cases hacq : s.orc.acquired = true
-  · have hs : w1.sched (.waitWorker s.orc.acquired) = ({ w1 with pc := .d_mark t false }, .unit) := by
-      simp [World.sched, hpc, hacq]
+  · have hp : ∃ w' : World, w1.sched (.waitWorker s.orc.acquired) = (w', .unit) ∧
+        FetchPost t lt g (fetcher next_ retry ctx ⟨w', s.lastTask, s.getNextErr, s.orc, s.k + 1, s.reserved⟩) := by
+      cases retry with
+      | false =>
+        refine ⟨{ w1 with pc := .d_mark t false }, by simp [World.sched, hpc, hacq], ?_⟩
+        exact fetch_post ctx next_ ⟨henv, rfl, hns, hfix, hlt, hg, hglt, hggne⟩
+      | true =>
+        refine ⟨{ w1 with pc := .d_get t }, by simp [World.sched, hpc, hacq], ?_⟩
+        exact fetch_post_retry ctx next_ ⟨henv, rfl, hns, hfix, hlt, hg, hglt, hggne⟩
+    obtain ⟨w', hs, hp⟩ := hp
     simp only [GoSched.dispatch, GoSched.act, hw, hs]
-    have hp : FetchPost t (fetcher (toGenT t) false ctx
-        ⟨{ w1 with pc := .d_mark t false }, s.lastTask, s.getNextErr, s.orc, s.k + 1, s.reserved⟩) :=
-      fetch_post ctx ⟨henv, rfl, hns, hfix, hlt, hg, hglt, hggne⟩
-    generalize fetcher (toGenT t) false ctx _ = r at hp ⊢
+    generalize fetcher next_ retry ctx _ = r at hp ⊢
     rcases r with ⟨s3, task, err⟩
     obtain ⟨h1, h2, h3, h4, h5, h6, ⟨e, h7, h8⟩ | ⟨h7, h8⟩⟩ := hp
     · simp only at h1 h2 h3 h4 h5 h6 h7 h8
       subst h7
-      drove_fin
+      refine ⟨?_, ?_, ?_, ?_, ?_, ?_, .inl ⟨e, ?_, ?_⟩⟩ <;>
+        simp [Go.isNil, Go.IsNil.isNil, StateDispatchErr, *]
     · simp only at h1 h2 h3 h4 h5 h6 h7 h8
       subst h7
-      drove_fin
+      refine ⟨?_, ?_, ?_, ?_, ?_, ?_, .inr ⟨?_, ?_⟩⟩ <;>
+        simp [Go.isNil, Go.IsNil.isNil, StateDispatched, GoSched.reserve, *]
   · have hacq' : s.orc.acquired = false := by simpa using hacq
     have hs : w1.sched (.waitWorker s.orc.acquired) = (w1.finish (.dispatchErr t .ctx), .err (some .ctx)) := by
       simp [World.sched, hpc, hacq']
     simp only [GoSched.dispatch, GoSched.act, hw, hs]
+    refine ⟨?_, ?_, ?_, ?_, ?_, ?_, .inl ⟨.ctx, ?_, ?_⟩⟩ <;>
+      simp [Go.isNil, Go.IsNil.isNil, StateDispatchErr, GoSched.errOfResp, World.finish, *]
+
+theorem drove_dispatch {s : GoSched} {t : Gk.Task} (ctx : Ctx) (h : Regs s (.d_wait t false) none false) :
+    Drove (Scheduler.dispatchTask s ctx (toGenT t) false) := by
+  have hp := dispatch_post ctx (toGenT t) h
+  generalize Scheduler.dispatchTask s ctx (toGenT t) false = r at hp ⊢
+  rcases r with ⟨s', st⟩
+  obtain ⟨h1, h2, h3, h4, h5, h6, ⟨e, h7, h8⟩ | ⟨h7, h8⟩⟩ := hp
+  · simp only at h1 h2 h3 h4 h5 h6 h7 h8
+    subst h7
+    drove_fin
+  · simp only at h1 h2 h3 h4 h5 h6 h7 h8
+    subst h7
     drove_fin
 
 theorem drove_stepTail {s : GoSched} {w0 : World} (ctx : Ctx) (hw : s.w = w0.afterPrologue)
@@ -511,5 +548,387 @@ theorem tie_sched_Step (w : World) (orc : SchedOrc) (ctx : Ctx)
     simp only [mkSched, hge', Bool.false_eq_true, if_false, Go.isNil, Go.IsNil.isNil, Option.isNone, Bool.not_true]
     refine drove_lastErr0 (lt := w.lastTask) ctx ⟨henv, rfl, hns1, hfix1, hlt, ?_, rfl, rfl⟩
     rw [← hge']; exact hg
+
+/-- what "the generated `Retry` drove the automaton correctly" means; `retryErr` is "the new state carries an error" -/
+structure DroveRetry (r : GoSched × GoStepState × Bool) : Prop where
+  not_stuck : r.1.w.stuck = false
+  idle : r.1.w.pc = .idle
+  ret : normSt r.2.1 = ssGo r.1.w.ret
+  retryErr : r.2.2 = r.1.w.ret.err.isSome
+  lastTask : r.1.lastTask = r.1.w.lastTask.map toGenT
+  getNextErr : r.1.getNextErr.isSome = r.1.w.getNextErr
+
+/-! ### `Retry` -/
+
+/-- the tail `if err != nil { retryErr = true }; return` of `Retry` -/
+def retryRet (s : GoSched) (state : GoStepState) (err : GoError) : GoSched × GoStepState × Bool :=
+  if (!(Go.isNil err)) then (s, state, true) else (s, state, (default : Bool))
+
+/-- `Retry`, arm `TimerUpdateError`: look at the timer error after the restart -/
+def retryLastErrArm (s : GoSched) : GoSched × GoStepState × Bool :=
+  let (s, err) := (GoSched.repoLastTimerUpdateError s)
+  if (!(Go.isNil err)) then retryRet s (StateTimerUpdateError err) err
+  else retryRet s default Go.nil
+
+/-- `Retry`, arm `TimerUpdateError` (after `beginRetry`) -/
+def retryTimerArm (s : GoSched) (ctx : Ctx) : GoSched × GoStepState × Bool :=
+  let s := (GoSched.repoStopTimer s)
+  let s := (GoSched.repoStartTimer s ctx)
+  retryLastErrArm s
+
+/-- `Retry`, arm `DispatchErr`: the call of `dispatchTask` and the return -/
+def retryDispTail (s : GoSched) (ctx : Ctx) (task fetched : Def.Task) (err : GoError) :
+    GoSched × GoStepState × Bool :=
+  let (s, callRes) := (Scheduler.dispatchTask s ctx task ((Go.isNil err) && (fetched.State == Def.TaskDispatched)))
+  retryRet s callRes callRes.Err
+
+/-- `Retry`, arm `DispatchErr` (after `beginRetry`) -/
+def retryDispArm (s : GoSched) (ctx : Ctx) (task : Def.Task) : GoSched × GoStepState × Bool :=
+  let (s, fetched, err) := (GoSched.repoGetById s ctx task.Id)
+  if ((!(Go.isNil err)) && (!(Go.def_IsDefError err))) then retryRet s (StateDispatchErr task err) err
+  else
+    if (!(Go.isNil err)) then retryDispTail s ctx fetched fetched err
+    else retryDispTail s ctx task fetched err
+
+/-- `Retry`, arm `TaskDone` (after `beginRetry`) -/
+def retryDoneArm (s : GoSched) (ctx : Ctx) (id : String) (taskErr : GoError) : GoSched × GoStepState × Bool :=
+  let (s, err) := (GoSched.repoMarkAsDone s ctx id taskErr)
+  if ((!(Go.isNil err)) && (!(Go.def_IsAlreadyDone err))) then retryRet s (StateTaskDone id taskErr err) err
+  else retryRet s default Go.nil
+
+theorem Retry_timer (s : GoSched) (ctx : Ctx) (e : GoError) :
+    Scheduler.Retry s ctx (.timerUpdateError e) = retryTimerArm (GoSched.beginRetry s) ctx := rfl
+theorem Retry_awaiting (s : GoSched) (ctx : Ctx) (e : GoError) :
+    Scheduler.Retry s ctx (.awaitingNext e) = (GoSched.beginRetry s, .zero, false) := rfl
+theorem Retry_nextTask (s : GoSched) (ctx : Ctx) (t : Def.Task) (e : GoError) :
+    Scheduler.Retry s ctx (.nextTask t e) = (GoSched.beginRetry s, .zero, false) := rfl
+theorem Retry_dispatched (s : GoSched) (ctx : Ctx) (id : String) :
+    Scheduler.Retry s ctx (.dispatched id) = (GoSched.beginRetry s, .zero, false) := rfl
+theorem Retry_done (s : GoSched) (ctx : Ctx) (id : String) (te ue : GoError) :
+    Scheduler.Retry s ctx (.taskDone id te ue) = retryDoneArm (GoSched.beginRetry s) ctx id te := rfl
+theorem Retry_disp (s : GoSched) (ctx : Ctx) (task : Def.Task) (e : GoError) :
+    Scheduler.Retry s ctx (.dispatchErr task e) = retryDispArm (GoSched.beginRetry s) ctx task := rfl
+
+/-- (1) Go's `def.IsDefError` on the error classes is the model's `isDefError` -/
+theorem isDefError_go (e : Err) : Go.def_IsDefError (some (goErrS e)) = World.isDefError e := by
+  cases e <;> simp [Go.def_IsDefError, Go.isDefErr, goErrS, World.isDefError]
+
+theorem alreadyDone_go (e : Option Err) :
+    ((!(Go.isNil (GoSched.errOfResp (.err e)))) && (!(Go.def_IsAlreadyDone (GoSched.errOfResp (.err e))))) =
+      (e.isSome && e != some .alreadyDone) := by
+  cases e with
+  | none => rfl
+  | some e =>
+    cases e <;> simp [GoSched.errOfResp, Go.isNil, Go.IsNil.isNil, Go.def_IsAlreadyDone, Go.def_IsRepositoryErr,
+      Go.isRepositoryErr, goErrS]
+
+theorem state_go (t : Gk.Task) : ((toGenT t).State == Def.TaskDispatched) = (t.state == .dispatched) := by
+  cases t with
+  | mk id workId priority state =>
+    cases state <;> simp [toGenT, St.name, Def.TaskDispatched]
+
+/-- (2) the zero task of the model is NOT Go's zero `def.Task`: the State differs -/
+theorem toGenT_zeroTask : toGenT World.zeroTask = { (default : Def.Task) with State := "scheduled" } := rfl
+theorem toGenT_zeroTask_ne : toGenT World.zeroTask ≠ (default : Def.Task) := by
+  intro h
+  have := congrArg Def.Task.State h
+  simp [toGenT_zeroTask] at this
+  revert this
+  decide
+
+/-- `DroveRetry` with the `ret` clause weakened by exactly the mismatch (2): on the unknown-id path of the `DispatchErr`
+arm Go reports the failed dispatch with the zero `def.Task` (`State = ""`), the automaton with `World.zeroTask`
+(`State = "scheduled"`); everything else of the two states (constructor, error class) agrees. `w0` is the world before
+the call. -/
+structure DroveRetryP (w0 : World) (r : GoSched × GoStepState × Bool) : Prop where
+  not_stuck : r.1.w.stuck = false
+  idle : r.1.w.pc = .idle
+  ret : normSt r.2.1 = ssGo r.1.w.ret ∨
+    ((∃ t e0, w0.ret = .dispatchErr t e0) ∧
+      ∃ e, r.2.1 = .dispatchErr default (some (goErrS e)) ∧ r.1.w.ret = .dispatchErr World.zeroTask e)
+  retryErr : r.2.2 = r.1.w.ret.err.isSome
+  lastTask : r.1.lastTask = r.1.w.lastTask.map toGenT
+  getNextErr : r.1.getNextErr.isSome = r.1.w.getNextErr
+
+theorem DroveRetry.toP {r : GoSched × GoStepState × Bool} (w0 : World) (h : DroveRetry r) : DroveRetryP w0 r :=
+  ⟨h.not_stuck, h.idle, .inl h.ret, h.retryErr, h.lastTask, h.getNextErr⟩
+
+theorem default_stepState : (default : GoStepState) = .zero := rfl
+theorem default_bool : (default : Bool) = false := rfl
+
+/-- closes `DroveRetry (s', st, b)` for explicit `s'`, `st`, `b` -/
+macro "droveR_fin" : tactic => `(tactic| (constructor <;>
+  simp [World.finish, retryRet, SS.err, Go.isNil, Go.IsNil.isNil, Go.nil, StateTimerUpdateError, StateDispatchErr,
+    StateDispatched, StateTaskDone, GoSched.errOfResp, default_goError, default_stepState, default_bool, toGenT_Id,
+    normSt, ssGo, *]))
+
+theorem regs_rstop {s : GoSched} {lt g} (h : Regs s .r_stop lt g) :
+    Regs (GoSched.repoStopTimer s) .r_start lt g := by
+  obtain ⟨hpc, hns, hfix, hlt, hg⟩ := h.envw
+  obtain ⟨henv, -, -, -, -, -, hglt, hggne⟩ := h
+  simp only [GoSched.repoStopTimer, GoSched.act]
+  generalize s.orc.env s.k s.w = w1 at *
+  simp only [World.sched, hpc]
+  exact ⟨henv, rfl, hns, hfix, hlt, hg, hglt, hggne⟩
+
+theorem regs_rstart {s : GoSched} {lt g} (ctx : Ctx) (h : Regs s .r_start lt g) :
+    Regs (GoSched.repoStartTimer s ctx) .r_lastErr lt g := by
+  obtain ⟨hpc, hns, hfix, hlt, hg⟩ := h.envw
+  obtain ⟨henv, -, -, -, -, -, hglt, hggne⟩ := h
+  simp only [GoSched.repoStartTimer, GoSched.act]
+  generalize s.orc.env s.k s.w = w1 at *
+  simp only [World.sched, hpc]
+  exact ⟨henv, rfl, hns, hfix, hlt, hg, hglt, hggne⟩
+
+theorem droveR_lastErr {s : GoSched} {lt g} (h : Regs s .r_lastErr lt g) : DroveRetry (retryLastErrArm s) := by
+  obtain ⟨hpc, hns, hfix, hlt, hg⟩ := h.envw
+  obtain ⟨henv, -, -, -, -, -, hglt, hggne⟩ := h
+  obtain ⟨w1, hw⟩ : ∃ w1, s.orc.env s.k s.w = w1 := ⟨_, rfl⟩
+  simp only [hw] at hpc hns hfix hlt hg
+  cases hle : w1.obs.hook.lastErr with
+  | some e =>
+    have hs : w1.sched .lastTimerErr = (w1.finish (.timerUpdateError e), .err (some e)) := by
+      simp only [World.sched, hpc, hle]
+    simp only [retryLastErrArm, GoSched.repoLastTimerUpdateError, GoSched.act, hw, hs]
+    droveR_fin
+  | none =>
+    have hs : w1.sched .lastTimerErr = (w1.finish .zero, .err none) := by
+      simp only [World.sched, hpc, hle]
+    simp only [retryLastErrArm, GoSched.repoLastTimerUpdateError, GoSched.act, hw, hs]
+    droveR_fin
+
+theorem droveR_timer {s : GoSched} {lt g} (ctx : Ctx) (h : Regs s .r_stop lt g) :
+    DroveRetry (retryTimerArm s ctx) :=
+  droveR_lastErr (regs_rstart ctx (regs_rstop h))
+
+theorem droveR_done {s : GoSched} {id : String} {o : Outcome} {lt g} (ctx : Ctx)
+    (h : Regs s (.r_markDone id o) lt g) : DroveRetry (retryDoneArm s ctx id (GoSched.outcomeGo o)) := by
+  obtain ⟨hpc, hns, hfix, hlt, hg⟩ := h.envw
+  obtain ⟨henv, -, -, -, -, -, hglt, hggne⟩ := h
+  obtain ⟨w1, hw⟩ : ∃ w1, s.orc.env s.k s.w = w1 := ⟨_, rfl⟩
+  simp only [hw] at hpc hns hfix hlt hg
+  have hs : ∃ (w' : World) (e : Option Err),
+      ((w1.sched (.markDone s.orc.fMarkDone) = (w'.finish (.taskDone id o e), .err e) ∧
+          (e.isSome && e != some .alreadyDone) = true) ∨
+       (w1.sched (.markDone s.orc.fMarkDone) = (w'.finish .zero, .err e) ∧
+          ¬ (e.isSome && e != some .alreadyDone) = true)) ∧
+      w'.stuck = false ∧ w'.lastTask = lt ∧ w'.getNextErr = g := by
+    simp only [World.sched, hpc]
+    repeat' split
+    all_goals first
+      | exact ⟨_, _, .inl ⟨rfl, by decide⟩, hns, hlt, hg⟩
+      | exact ⟨_, _, .inr ⟨rfl, by decide⟩, hns, hlt, hg⟩
+      | exact ⟨_, _, .inl ⟨rfl, ‹_›⟩, hns, hlt, hg⟩
+      | exact ⟨_, _, .inr ⟨rfl, ‹_›⟩, hns, hlt, hg⟩
+  obtain ⟨w', e, ⟨hs, he⟩ | ⟨hs, he⟩, hns', hlt', hg'⟩ := hs
+  · simp only [retryDoneArm, GoSched.repoMarkAsDone, GoSched.act, hw, hs, alreadyDone_go, he, if_true]
+    cases e with
+    | none => simp at he
+    | some e => droveR_fin
+  · have he' : (e.isSome && e != some .alreadyDone) = false := by simpa using he
+    simp only [retryDoneArm, GoSched.repoMarkAsDone, GoSched.act, hw, hs, alreadyDone_go, he', Bool.false_eq_true,
+      if_false]
+    droveR_fin
+
+/-- the return of the `DispatchErr` arm after `dispatchTask`, known task -/
+theorem droveR_dispTail {t : Gk.Task} {lt g} {r : GoSched × GoStepState} (hp : DispPost t (toGenT t) lt g r) :
+    DroveRetry (r.1, r.2, (retryRet r.1 r.2 r.2.Err).2.2) := by
+  rcases r with ⟨s', st⟩
+  obtain ⟨h1, h2, h3, h4, h5, h6, ⟨e, h7, h8⟩ | ⟨h7, h8⟩⟩ := hp
+  · simp only at h1 h2 h3 h4 h5 h6 h7 h8
+    subst h7
+    constructor <;> simp [retryRet, GoStepState.Err, SS.err, Go.isNil, Go.IsNil.isNil, normSt, ssGo, *]
+  · simp only at h1 h2 h3 h4 h5 h6 h7 h8
+    subst h7
+    constructor <;> simp [retryRet, GoStepState.Err, SS.err, Go.isNil, Go.IsNil.isNil, default_bool, toGenT_Id,
+      normSt, ssGo, *]
+
+theorem retryRet_eq (s : GoSched) (st : GoStepState) (e : GoError) :
+    retryRet s st e = (s, st, (retryRet s st e).2.2) := by
+  unfold retryRet; split <;> rfl
+
+theorem droveR_disp {s : GoSched} {t : Gk.Task} {lt g} (w0 : World) (ctx : Ctx)
+    (hd : ∃ t e0, w0.ret = .dispatchErr t e0) (h : Regs s (.r_getById t) lt g) :
+    DroveRetryP w0 (retryDispArm s ctx (toGenT t)) := by
+  obtain ⟨hpc, hns, hfix, hlt, hg⟩ := h.envw
+  obtain ⟨henv, -, -, -, -, -, hglt, hggne⟩ := h
+  have hrm : (s.orc.env s.k s.w).fix.retryMarks = true := by rw [hfix]
+  obtain ⟨w1, hw⟩ : ∃ w1, s.orc.env s.k s.w = w1 := ⟨_, rfl⟩
+  simp only [hw] at hpc hns hfix hlt hg hrm
+  have hs : ∃ w' : World,
+      ((∃ e, w1.sched (.getById s.orc.fGet) = (w'.finish (.dispatchErr t e), .err (some e)) ∧
+          World.isDefError e = false) ∨
+       (w1.sched (.getById s.orc.fGet) = (w', .err (some .idNotFound)) ∧ w'.pc = .d_wait World.zeroTask false) ∨
+       (∃ cur, w1.sched (.getById s.orc.fGet) = (w', .task cur) ∧ w'.pc = .d_wait t (cur.state == .dispatched))) ∧
+      w'.stuck = false ∧ w'.fix = {} ∧ w'.lastTask = lt ∧ w'.getNextErr = g := by
+    simp only [World.sched, hpc, hrm]
+    split
+    · exact ⟨_, .inl ⟨_, rfl, rfl⟩, hns, hfix, hlt, hg⟩
+    · split
+      · exact ⟨_, .inl ⟨_, rfl, rfl⟩, hns, hfix, hlt, hg⟩
+      · split
+        · exact ⟨_, .inr (.inl ⟨rfl, rfl⟩), hns, hfix, hlt, hg⟩
+        · exact ⟨_, .inr (.inr ⟨_, rfl, rfl⟩), hns, hfix, hlt, hg⟩
+  obtain ⟨w', ⟨e, hs, hde⟩ | ⟨hs, hpc'⟩ | ⟨cur, hs, hpc'⟩, hns', hfix', hlt', hg'⟩ := hs
+  · simp only [retryDispArm, GoSched.repoGetById, GoSched.act, hw, hs, GoSched.errOfResp, isDefError_go, hde,
+      Go.isNil, Go.IsNil.isNil, Option.isNone, Bool.not_false, Bool.and_self, if_true]
+    exact DroveRetry.toP w0 (by droveR_fin)
+  · have hp : DispPost World.zeroTask default lt g (Scheduler.dispatchTask
+        ⟨w', s.lastTask, s.getNextErr, s.orc, s.k + 1, s.reserved⟩ ctx default false) :=
+      dispatch_post ctx default ⟨henv, hpc', hns', hfix', hlt', hg', hglt, hggne⟩
+    simp only [retryDispArm, retryDispTail, GoSched.repoGetById, GoSched.act, hw, hs, GoSched.errOfResp,
+      isDefError_go, World.isDefError, Go.isNil, Go.IsNil.isNil, Option.isNone, Bool.not_false, Bool.not_true,
+      Bool.and_false, Bool.false_and, Bool.false_eq_true, if_false, if_true]
+    generalize Scheduler.dispatchTask _ ctx default false = r at hp ⊢
+    rcases r with ⟨s', st⟩
+    obtain ⟨h1, h2, h3, h4, h5, h6, ⟨e, h7, h8⟩ | ⟨h7, h8⟩⟩ := hp
+    · simp only at h1 h2 h3 h4 h5 h6 h7 h8
+      subst h7
+      refine ⟨?_, ?_, .inr ⟨hd, e, ?_, ?_⟩, ?_, ?_, ?_⟩ <;>
+        simp [retryRet, GoStepState.Err, SS.err, Go.isNil, Go.IsNil.isNil, *]
+    · simp only at h1 h2 h3 h4 h5 h6 h7 h8
+      subst h7
+      refine ⟨?_, ?_, .inl ?_, ?_, ?_, ?_⟩ <;>
+        simp [retryRet, GoStepState.Err, SS.err, Go.isNil, Go.IsNil.isNil, default_bool, normSt, ssGo, *] <;> rfl
+  · have hp : DispPost t (toGenT t) lt g (Scheduler.dispatchTask
+        ⟨w', s.lastTask, s.getNextErr, s.orc, s.k + 1, s.reserved⟩ ctx (toGenT t) (cur.state == .dispatched)) :=
+      dispatch_post ctx (toGenT t) ⟨henv, hpc', hns', hfix', hlt', hg', hglt, hggne⟩
+    simp only [retryDispArm, retryDispTail, GoSched.repoGetById, GoSched.act, hw, hs, state_go,
+      Go.isNil, Go.IsNil.isNil, Option.isNone, Bool.not_true, Bool.true_and,
+      Bool.and_false, Bool.false_and, Bool.false_eq_true, if_false]
+    generalize Scheduler.dispatchTask _ ctx (toGenT t) (cur.state == .dispatched) = r at hp ⊢
+    rw [retryRet_eq]
+    exact DroveRetry.toP w0 (droveR_dispTail hp)
+
+/-- `Retry(prev)` where `prev` is the state the last call returned (the driver discipline of DESIGN 13.3; `Match` panics
+on the zero `StepState`, which no call returns to a driver that starts with `Step`).
+
+The ORIGINAL statement is FALSE (see `tie_sched_Retry_false` below):
+
+  theorem tie_sched_Retry (w : World) (orc : SchedOrc) (ctx : Ctx) (prev : GoStepState)
+      (hidle : w.pc = .idle) (hns : w.stuck = false) (hfix : w.fix = {}) (henv : EnvOk orc.env)
+      (hprev : normSt prev = ssGo w.ret) (hnz : w.ret ≠ .zero)
+      (hlt : (mkSched w orc).lastTask = w.lastTask.map toGenT) :
+      DroveRetry (Scheduler.Retry (mkSched w orc) ctx prev)
+
+Path: `w.ret = dispatchErr t e0`, `GetById(t.id)` answers `id_not_found` (a def error, so Go goes on with
+`task = fetched` = the zero `def.Task`, the automaton with `World.zeroTask`), and the dispatch then fails (no worker /
+`MarkAsDispatched("")` fails): Go returns `StateDispatchErr(def.Task{}, err)`, the automaton's `ret` is
+`dispatchErr zeroTask e` and `toGenT zeroTask` has `State = "scheduled"`, not `""` (`toGenT_zeroTask`). All other clauses
+of `DroveRetry` hold on every path, and `ret` holds on every other path; that is `DroveRetryP`. -/
+theorem tie_sched_Retry_partial (w : World) (orc : SchedOrc) (ctx : Ctx) (prev : GoStepState)
+    (hidle : w.pc = .idle) (hns : w.stuck = false) (hfix : w.fix = {}) (henv : EnvOk orc.env)
+    (hprev : normSt prev = ssGo w.ret) (hnz : w.ret ≠ .zero)
+    (_hlt : (mkSched w orc).lastTask = w.lastTask.map toGenT) :
+    DroveRetryP w (Scheduler.Retry (mkSched w orc) ctx prev) := by
+  have h : Regs (mkSched w orc) .idle w.lastTask w.getNextErr :=
+    ⟨henv, hidle, hns, hfix, rfl, rfl, rfl, by simp only [mkSched]; cases w.getNextErr <;> rfl⟩
+  obtain ⟨hpc, hns1, hfix1, hlt, hg⟩ := h.envw
+  have hret : ((mkSched w orc).orc.env (mkSched w orc).k (mkSched w orc).w).ret = w.ret := (henv 0 w).2.2.2.1
+  obtain ⟨-, -, -, -, -, -, hglt, hggne⟩ := h
+  obtain ⟨w1, hw⟩ : ∃ w1, (mkSched w orc).orc.env (mkSched w orc).k (mkSched w orc).w = w1 := ⟨_, rfl⟩
+  simp only [hw] at hpc hns1 hfix1 hlt hg hret
+  have hzero : ∀ r : SS, w1.ret = r → (∀ e, r ≠ .timerUpdateError e) → (∀ t e, r ≠ .dispatchErr t e) →
+      (∀ id o e, r ≠ .taskDone id o e) →
+      DroveRetryP w (GoSched.beginRetry (mkSched w orc), GoStepState.zero, false) := by
+    intro r hr h1 h2 h3
+    have hs : w1.sched .beginRetry = (({ w1 with ctxDone := false }).finish .zero, .unit) := by
+      -- the catch-all arm of `beginRetry`: its side conditions are `h1 h2 h3`
+      simp only [World.sched, hpc, hr]
+    simp only [GoSched.beginRetry, GoSched.act, hw, hs]
+    exact DroveRetry.toP w (by droveR_fin)
+  cases hr : w.ret with
+  | zero => exact absurd hr hnz
+  | timerUpdateError e =>
+    rw [hr] at hprev hret
+    cases prev <;> simp [normSt, ssGo] at hprev
+    rw [Retry_timer]
+    have hs : w1.sched .beginRetry = ({ w1 with ctxDone := false, pc := .r_stop }, .unit) := by
+      simp only [World.sched, hpc, hret]
+    simp only [GoSched.beginRetry, GoSched.act, hw, hs]
+    exact DroveRetry.toP w (droveR_timer ctx ⟨henv, rfl, hns1, hfix1, hlt, hg, hglt, hggne⟩)
+  | awaitingNext =>
+    rw [hr] at hprev hret
+    cases prev <;> simp [normSt, ssGo] at hprev
+    rw [Retry_awaiting]
+    exact hzero _ hret (by simp) (by simp) (by simp)
+  | nextTask o e =>
+    rw [hr] at hprev hret
+    cases o <;> cases prev <;> simp [normSt, ssGo] at hprev <;> rw [Retry_nextTask] <;>
+      exact hzero _ hret (by simp) (by simp) (by simp)
+  | dispatched id =>
+    rw [hr] at hprev hret
+    cases prev <;> simp [normSt, ssGo] at hprev
+    rw [Retry_dispatched]
+    exact hzero _ hret (by simp) (by simp) (by simp)
+  | dispatchErr t e =>
+    rw [hr] at hprev hret
+    cases prev <;> simp [normSt, ssGo] at hprev
+    obtain ⟨ht, -⟩ := hprev
+    subst ht
+    rw [Retry_disp]
+    have hs : w1.sched .beginRetry = ({ w1 with ctxDone := false, pc := .r_getById t }, .unit) := by
+      simp only [World.sched, hpc, hret]
+    simp only [GoSched.beginRetry, GoSched.act, hw, hs]
+    exact droveR_disp w ctx ⟨t, e, hr⟩ ⟨henv, rfl, hns1, hfix1, hlt, hg, hglt, hggne⟩
+  | taskDone id o ue =>
+    rw [hr] at hprev hret
+    cases prev <;> simp [normSt, ssGo] at hprev
+    rename_i id' te' ue'
+    obtain ⟨hid, ho, -⟩ := hprev
+    subst id' te'
+    rw [Retry_done]
+    have hs : w1.sched .beginRetry = ({ w1 with ctxDone := false, pc := .r_markDone id o }, .unit) := by
+      simp only [World.sched, hpc, hret]
+    simp only [GoSched.beginRetry, GoSched.act, hw, hs]
+    exact DroveRetry.toP w (droveR_done ctx ⟨henv, rfl, hns1, hfix1, hlt, hg, hglt, hggne⟩)
+
+/-- on every arm but `DispatchErr` the original conclusion holds -/
+theorem tie_sched_Retry_of_not_dispatchErr (w : World) (orc : SchedOrc) (ctx : Ctx) (prev : GoStepState)
+    (hidle : w.pc = .idle) (hns : w.stuck = false) (hfix : w.fix = {}) (henv : EnvOk orc.env)
+    (hprev : normSt prev = ssGo w.ret) (hnz : w.ret ≠ .zero)
+    (hlt : (mkSched w orc).lastTask = w.lastTask.map toGenT)
+    (hnd : ∀ t e, w.ret ≠ .dispatchErr t e) :
+    DroveRetry (Scheduler.Retry (mkSched w orc) ctx prev) := by
+  have h := tie_sched_Retry_partial w orc ctx prev hidle hns hfix henv hprev hnz hlt
+  refine ⟨h.not_stuck, h.idle, ?_, h.retryErr, h.lastTask, h.getNextErr⟩
+  rcases h.ret with h | ⟨⟨t, e, h⟩, -⟩
+  · exact h
+  · exact absurd h (hnd t e)
+
+/-- the normalisation that makes the `ret` clause true on every path: forget the `State` of the task a `DispatchErr`
+carries (comparing these tasks by `Id` only is weaker and also true) -/
+def blankSt : GoStepState → GoStepState
+  | .dispatchErr t e => .dispatchErr { t with State := "" } e
+  | s => s
+
+theorem tie_sched_Retry_modState (w : World) (orc : SchedOrc) (ctx : Ctx) (prev : GoStepState)
+    (hidle : w.pc = .idle) (hns : w.stuck = false) (hfix : w.fix = {}) (henv : EnvOk orc.env)
+    (hprev : normSt prev = ssGo w.ret) (hnz : w.ret ≠ .zero)
+    (hlt : (mkSched w orc).lastTask = w.lastTask.map toGenT) :
+    blankSt (normSt (Scheduler.Retry (mkSched w orc) ctx prev).2.1) =
+      blankSt (ssGo (Scheduler.Retry (mkSched w orc) ctx prev).1.w.ret) := by
+  have h := tie_sched_Retry_partial w orc ctx prev hidle hns hfix henv hprev hnz hlt
+  rcases h.ret with h | ⟨-, e, h1, h2⟩
+  · rw [h]
+  · rw [h1, h2]; rfl
+
+/-- the State of the task a `DispatchErr` carries -/
+def dispErrState : GoStepState → String
+  | .dispatchErr t _ => t.State
+  | _ => "?"
+
+/-- the original statement is false: the last failed dispatch was of a task that has been deleted since, no worker -/
+theorem tie_sched_Retry_false : ¬ ∀ (w : World) (orc : SchedOrc) (ctx : Ctx) (prev : GoStepState),
+    w.pc = .idle → w.stuck = false → w.fix = {} → EnvOk orc.env → normSt prev = ssGo w.ret → w.ret ≠ .zero →
+    (mkSched w orc).lastTask = w.lastTask.map toGenT →
+    DroveRetry (Scheduler.Retry (mkSched w orc) ctx prev) := by
+  intro H
+  have h := H { ret := .dispatchErr World.zeroTask .ctx } { acquired := false } none
+    (ssGo (.dispatchErr World.zeroTask .ctx)) rfl rfl rfl
+    (fun _ _ => ⟨rfl, rfl, rfl, rfl, rfl, rfl⟩) rfl (by simp) rfl
+  have h' := congrArg dispErrState h.ret
+  revert h'
+  decide
 
 end Gk.Tie
